@@ -406,3 +406,83 @@ func goLit(a *Opnd) string {
 }
 
 func joinStr(xs []string, sep string) string { return strings.Join(xs, sep) }
+
+// ---------------------------------------------------------------------------
+// plain go test source for arithmetic cases (embedded in replay files)
+
+func goOperand(name string, a *Opnd) string {
+	lit := "0"
+	switch a.Form {
+	case fZero:
+		if a.Neg {
+			lit = "-0"
+		}
+	case fInf:
+		lit = "+Inf"
+		if a.Neg {
+			lit = "-Inf"
+		}
+	default:
+		v := a.V.Norm()
+		lit = fmt.Sprintf("%se%d", v.Coef.String(), v.E10)
+		if a.Neg {
+			lit = "-" + lit
+		}
+	}
+	p := a.Prec
+	if a.Form == fFinite && p < uint32(ndigits(a.V.Norm().Coef)) {
+		p = uint32(ndigits(a.V.Norm().Coef))
+	}
+	return fmt.Sprintf("\t%s, _, err := decimal.ParseDecimal(%q, 10, %d, decimal.RoundingMode(%d))\n\tif err != nil {\n\t\tt.Fatal(err)\n\t}\n", name, lit, maxU32(p, 1), a.Mode)
+}
+
+func maxU32(a, b uint32) uint32 {
+	if a > b {
+		return a
+	}
+	return b
+}
+
+func goExpect(exp RRes) string {
+	if exp.NaN {
+		return "panic(ErrNaN)"
+	}
+	s := ""
+	if exp.Neg {
+		s = "-"
+	}
+	switch exp.Form {
+	case fZero:
+		return s + "0"
+	case fInf:
+		if exp.Neg {
+			return "-Inf"
+		}
+		return "+Inf"
+	}
+	v := exp.Val().Norm()
+	return fmt.Sprintf("%s0.%se%+d", s, v.Coef.String(), v.Exp())
+}
+
+// goTestArith renders a test for z.Op(operands...) with a fresh receiver (prec, mode).
+func goTestArith(op string, names []string, ops []*Opnd, prec uint32, mode uint8, exp RRes, wantAcc bool) string {
+	var sb strings.Builder
+	sb.WriteString("package decimal_test\n\nimport (\n\t\"testing\"\n\n\t\"github.com/db47h/decimal\"\n)\n\n")
+	sb.WriteString("// generated by /verif: replays one enumerated case through the public API\nfunc TestVerifReplay(t *testing.T) {\n")
+	for i, a := range ops {
+		sb.WriteString(goOperand(names[i], a))
+	}
+	fmt.Fprintf(&sb, "\tz := new(decimal.Decimal).SetPrec(%d).SetMode(decimal.RoundingMode(%d)) // %s\n", prec, mode, modeName(mode))
+	call := fmt.Sprintf("z.%s(%s)", op, strings.Join(names[:len(ops)], ", "))
+	if exp.NaN {
+		fmt.Fprintf(&sb, "\tdefer func() {\n\t\tif _, ok := recover().(decimal.ErrNaN); !ok {\n\t\t\tt.Fatal(\"expected an ErrNaN panic\")\n\t\t}\n\t}()\n\t%s\n}\n", call)
+		return sb.String()
+	}
+	fmt.Fprintf(&sb, "\t%s\n", call)
+	fmt.Fprintf(&sb, "\tif got, want := z.Text('p', 0), %q; got != want {\n\t\tt.Errorf(\"value: got %%s, want %%s\", got, want)\n\t}\n", goExpect(exp))
+	if wantAcc {
+		fmt.Fprintf(&sb, "\tif got, want := z.Acc(), decimal.Accuracy(%d); got != want {\n\t\tt.Errorf(\"accuracy: got %%v, want %%v\", got, want)\n\t}\n", exp.Acc)
+	}
+	sb.WriteString("}\n")
+	return sb.String()
+}
